@@ -258,28 +258,39 @@ pub fn check_tree(model: &mut Model, files: &[(String, String)], tag: &str, max_
     // 2. fault enumeration: k-th write / openat / rename fails with ENOSPC, or the process is killed there
     let n_write = sys.iter().filter(|s| matches!(s, Sys::Write(..))).count() + 2;
     let n_rename = sys.iter().filter(|s| matches!(s, Sys::Rename(..))).count();
-    let mut points: Vec<(String, usize, bool)> = vec![];
+    // mode 0: that one call fails; 1: the process is killed there; 2: that call and every later one fail (a full disk stays full)
+    let mut points: Vec<(String, usize, u8)> = vec![];
     for k in 1..=n_write {
-        points.push(("write".into(), k, false));
-        points.push(("write".into(), k, true));
+        points.push(("write".into(), k, 0));
+        points.push(("write".into(), k, 1));
+        points.push(("write".into(), k, 2));
     }
     for k in 1..=n_rename.max(1) {
-        points.push(("rename".into(), k, false));
-        points.push(("rename".into(), k, true));
+        points.push(("rename".into(), k, 0));
+        points.push(("rename".into(), k, 1));
+        points.push(("rename".into(), k, 2));
     }
-    let step = (points.len() / max_points.max(1)).max(1);
-    for (i, (sc, k, kill)) in points.iter().enumerate() {
-        if i % step != 0 {
+    // a fixed pseudo-random sample of the points (all of them when there are at most `max_points`)
+    let mut order: Vec<usize> = (0..points.len()).collect();
+    order.sort_by_key(|i| (*i as u64 + 1).wrapping_mul(2654435761) % 1000003);
+    order.truncate(max_points.max(1));
+    order.sort();
+    for (i, (sc, k, mode)) in points.iter().enumerate() {
+        if !order.contains(&i) {
             continue;
         }
         fresh();
-        let inject = if *kill { format!("inject={}:signal=KILL:when={}", sc, k) } else { format!("inject={}:error=ENOSPC:when={}", sc, k) };
+        let inject = match mode {
+            1 => format!("inject={}:signal=KILL:when={}", sc, k),
+            2 => format!("inject={}:error=ENOSPC:when={}+", sc, k),
+            _ => format!("inject={}:error=ENOSPC:when={}", sc, k),
+        };
         let _ = run_iwe(&root, Some(&["-f", "-qq", "-o", "/dev/null", "-e", &format!("trace={}", sc), "-e", &inject]));
         res.injections += 1;
         let after = snapshot(&root);
         if let Some(w) = check_after(&before, &after, &want, false, true) {
             if res.fail.is_none() {
-                res.fail = Some(format!("{} #{} {}: {}", sc, k, if *kill { "killed" } else { "fails with ENOSPC" }, w));
+                res.fail = Some(format!("{} #{} {}: {}", sc, k, ["fails with ENOSPC", "killed", "and all later ones fail with ENOSPC"][*mode as usize], w));
             }
             break;
         }
@@ -289,7 +300,7 @@ pub fn check_tree(model: &mut Model, files: &[(String, String)], tag: &str, max_
 }
 
 pub fn run(ctx: &Ctx, model: &mut Model, rep: &mut Report) {
-    rep.rule = "directory trees of 1-6 notes (nested directories, names with spaces and non-ASCII, non-note files next to them) normalised by the real `iwe` binary built from /repo; correspondence: the write-side system calls per note seen under strace vs the step sequence of the model's write_file; fault enumeration: the k-th write / rename system call fails with ENOSPC or the process is killed there (strace -e inject), for the sampled k; after every run each note file holds its complete old or new text, non-note files are untouched, nothing is created or deleted; non-trivial = ≥1 note whose text changes; distinct by tree".to_string();
+    rep.rule = "directory trees of 1-6 notes (nested directories, names with spaces and non-ASCII, non-note files next to them) normalised by the real `iwe` binary built from /repo; correspondence: the write-side system calls per note seen under strace vs the step sequence of the model's write_file; fault enumeration: the k-th write / rename system call fails with ENOSPC, it and all later ones fail (the disk stays full), or the process is killed there (strace -e inject), for the sampled k; after every run each note file holds its complete old or new text, non-note files are untouched, nothing is created or deleted; non-trivial = ≥1 note whose text changes; distinct by tree".to_string();
     if !Path::new(IWE_BIN).exists() {
         rep.notes.push(format!("{} not built", IWE_BIN));
         rep.disagree(json!({"op": "build", "what": "the iwe binary is missing"}));
